@@ -279,6 +279,7 @@ def build_cases(tier: str, seed: int) -> list[dict[str, Any]]:
     cases += cs.svc_drop(tier)
     cases += cs.svc_boundary()
     cases += cs.svc_defaults()
+    cases += cs.svc_reset(tier)
     ab = cs.svc_abstract("quick")
     cases += ab[::5] if tier == "quick" else ab
     if tier == "thorough":
